@@ -1056,7 +1056,15 @@ where
             )),
             _ => {
                 if field_delta != 0 {
-                    self.last_read_field_id += field_delta as i16;
+                    self.last_read_field_id = self
+                        .last_read_field_id
+                        .checked_add(field_delta as i16)
+                        .ok_or_else(|| {
+                            new_protocol_exception(
+                                ProtocolExceptionKind::InvalidData,
+                                "field id delta overflows i16",
+                            )
+                        })?;
                 } else {
                     self.last_read_field_id = self.read_i16().await?;
                 }
@@ -1591,7 +1599,15 @@ impl TInputProtocol for TCompactInputProtocol<&mut Bytes> {
             )),
             _ => {
                 if field_delta != 0 {
-                    self.last_read_field_id += field_delta as i16;
+                    self.last_read_field_id = self
+                        .last_read_field_id
+                        .checked_add(field_delta as i16)
+                        .ok_or_else(|| {
+                            new_protocol_exception(
+                                ProtocolExceptionKind::InvalidData,
+                                "field id delta overflows i16",
+                            )
+                        })?;
                 } else {
                     self.last_read_field_id = self.read_i16()?;
                 }
